@@ -611,7 +611,8 @@ pub fn c01(c: &Collector, g: &mut Guard) {
     );
     // ---------------------------------------------------------------- API sequences, depth k, display interleaved
     let depth = if thorough { 3 } else { 2 };
-    for gg in [(1u32, 1u32), (3, 2)] {
+    let bfs_geoms: Vec<((u32, u32), usize)> = if thorough { vec![((1, 1), 3), ((2, 1), 3), ((1, 2), 3), ((3, 2), 2)] } else { vec![((1, 1), 2), ((3, 2), 2)] };
+    for (gg, depth) in bfs_geoms {
         let sspec = Spec {
             geoms: vec![gg],
             fills: vec![Fill::F0, Fill::F1],
